@@ -161,8 +161,18 @@ func c18Level(l int) int {
 	return z
 }
 
-func c18DumpLevels() {
+// c18LevelPoints: every slog level in −12…12 plus far-out values on both sides (width boundaries of every integer
+// type a conversion could pass through), ascending.
+func c18LevelPoints() []int {
+	pts := []int{math.MinInt64, math.MinInt32 - 1, math.MinInt32, -65537, -65536, -32769, -32768, -1025, -1024, -517, -516, -513, -512, -257, -256, -129, -128, -100, -20, -13}
 	for l := -12; l <= 12; l++ {
+		pts = append(pts, l)
+	}
+	return append(pts, 13, 20, 100, 127, 128, 255, 256, 511, 512, 513, 1023, 1024, 32767, 32768, 65535, 65536, math.MaxInt32, math.MaxInt32+1, math.MaxInt64)
+}
+
+func c18DumpLevels() {
+	for _, l := range c18LevelPoints() {
 		fmt.Fprintf(dumpOut, "%d %d\n", l, c18Mapped(l))
 	}
 }
@@ -183,14 +193,14 @@ func c18Exec(raw json.RawMessage) Result {
 	case "levels":
 		tab := [][]int{}
 		o := ok()
-		for l := -12; l <= 12; l++ {
+		for i, l := range c18LevelPoints() {
 			z := c18Mapped(l)
 			tab = append(tab, []int{l, z})
 			if z < int(zapcore.DebugLevel) || z > int(zapcore.FatalLevel) {
 				o = bad("C18:level-not-a-zap-level", "slog level %d maps to %d, which is not a zap level", l, z)
 			}
-			if l > -12 && z < tab[len(tab)-2][1] {
-				o = bad("C18:level-map-not-monotone", "slog %d ↦ %d but slog %d ↦ %d", l-1, tab[len(tab)-2][1], l, z)
+			if i > 0 && z < tab[len(tab)-2][1] {
+				o = bad("C18:level-map-not-monotone", "slog %d ↦ %d but slog %d ↦ %d", tab[len(tab)-2][0], tab[len(tab)-2][1], l, z)
 			}
 		}
 		return Result{Impl: map[string]any{"table": tab}, Oracle: o, Nontrivial: true, Shape: "levels"}
@@ -456,6 +466,9 @@ func c18GenLevel(r *Rand) int {
 	if r.Chance(1, 2) {
 		return Pick(r, []int{-4, 0, 4, 8})
 	}
+	if r.Chance(1, 6) {
+		return Pick(r, c18LevelPoints())
+	}
 	return -12 + r.Intn(25)
 }
 
@@ -545,7 +558,7 @@ func c18Gen(r *Rand, tier string, emit func(op any)) {
 	for _, e := range enabs {
 		op := c18Op{K: "prog", Enab: e, StackAt: 8}
 		op.Steps = append(op.Steps, c18Step{T: "g", On: 0, Name: "g"})
-		for l := -12; l <= 12; l++ {
+		for _, l := range c18LevelPoints() {
 			op.Steps = append(op.Steps, c18Step{T: "h", On: 1, Lvl: l, Attrs: []c18Attr{{A: "leaf", K: "a", Ty: "i64", V: strconv.Itoa(l)}}})
 		}
 		emit(op)
